@@ -95,6 +95,16 @@ type inliner struct {
 	samePkgOnly map[*ssa.Function]bool         // helpers of the parser / printer: inlined into callers of their own package only
 }
 
+// returnsFunc: the function's single result is itself a function (a lexer state).
+func returnsFunc(f *ssa.Function) bool {
+	res := f.Signature.Results()
+	if res.Len() != 1 {
+		return false
+	}
+	_, ok := res.At(0).Type().Underlying().(*types.Signature)
+	return ok
+}
+
 func token_IsExported(name string) bool { return len(name) > 0 && name[0] >= 'A' && name[0] <= 'Z' }
 
 // barrier: anchor functions the rules are written against (exported API pinned by the existing tests, see DESIGN.md 3.3),
@@ -102,8 +112,15 @@ func token_IsExported(name string) bool { return len(name) > 0 && name[0] >= 'A'
 func (il *inliner) barrier(f *ssa.Function) bool {
 	pkg := shortPkg(fnPkgPath(f))
 	switch pkg {
-	case "lexer", "token":
+	case "token":
 		return true
+	case "lexer":
+		// the lexer's rules work on the graph of state functions (functions that return the next state) and on the calls of
+		// emit / error / run inside them: those stay; other unexported helpers are inlined into callers of the package
+		if token_IsExported(f.Name()) || f.Name() == "emit" || f.Name() == "error" || f.Name() == "run" || returnsFunc(f) {
+			return true
+		}
+		il.samePkgOnly[f] = true
 	case "parser", "ast":
 		// the rules for these packages are written per function against the parser's and the printer's entry points; helpers
 		// below those (unexported, not one of the named entry points) are inlined into callers of the same package only
@@ -1348,7 +1365,7 @@ func splitStructs(f *ssa.Function) int {
 // error path and the success path never meet, and a phi no longer mixes the value of one with the placeholder of the other.
 
 // noThread: packages whose rules are written against the source-level shape of the code.
-var noThread = map[string]bool{"lexer": true, "token": true}
+var noThread = map[string]bool{"token": true}
 
 func pruneUnreachable(f *ssa.Function) {
 	reach := map[*ssa.BasicBlock]bool{}
